@@ -426,3 +426,10 @@ package pbft
 //@   requires ps != nil && numValidators >= 0
 //@   invariant-assumed wfPRS(ps)
 //@   ensures  wfPRS(ps)
+
+// decoding of peer bytes is size-limited; an empty message panics on bz[0], which the connection's receive
+// goroutine recovers from (see the defers obligations in gemmill/p2p)
+//@ func DecodeMessage
+//@   props C18 C08
+//@   aborts when [empty-message-confined-by-recover] len(bz) == 0
+//@   atcall ReadBinary assert [decode-is-size-limited] arg_lmt == maxConsensusMessageSize && arg_lmt > 0
